@@ -87,6 +87,16 @@ class Coin:
 class Color(enum.Enum):
     RED = 0
     BLUE = 2
+def ident(x):
+    return x
+class Masked:
+    # an object that reports another class than its type (isinstance() honours __class__)
+    @property
+    def __class__(self): return int
+    def __repr__(self): return 'Masked()'
+    is_masked = True
+    def __eq__(self, o): return bool(getattr(o, 'is_masked', False))
+    __hash__ = None
 class Plain:
     def __init__(self): self.a = 1
     def __eq__(self, o): return isinstance(o, Plain)
@@ -96,7 +106,7 @@ class Plain:
 VALUES = ['0', '1', '-1', '2', '7', '-3', '10**20', '0.0', '1.5', '-2.5', '3.0', '2.675', "float('inf')", "float('nan')",
           'True', 'False', '(1+2j)', "''", "'a'", "'abc'", "'x y'", "'%d items'", "'3'", "b'ab'",
           '[]', '[1, 2, 3]', "['a', 'b']", '[[1], [2]]', '()', '(1, 2)', "('a', 1)", '{}', "{'a': 1}", "{1: 'x', 2: 'y'}",
-          'set()', '{1, 2}', "{'a'}", 'frozenset({1})', 'range(3)', 'None', 'Vec(3)', 'Vec(0)', 'Plain()', 'Coin(5)', 'Coin(0)', 'Color.RED', 'Color.BLUE', '[1.5, None]',
+          'set()', '{1, 2}', "{'a'}", 'frozenset({1})', 'range(3)', 'None', 'Vec(3)', 'Vec(0)', 'Plain()', 'Coin(5)', 'Coin(0)', 'Color.RED', 'Color.BLUE', 'Masked()', '[1.5, None]',
           "'ab' * 3", '255', '1e300', '-0.0']
 
 BINARY = {
@@ -171,8 +181,21 @@ def proxy_of(src):
         _state['proxies'][src] = p
         if len(sb._context) > 200:
             sb.clear_context()
-            sb._next_context_id = 0
     return _state['proxies'][src]
+
+
+def carried_proxy_of(src):
+    """A result that went through student code twice: call('ident', call(...)).  Containers and objects are handed to the student
+    function as they are (not re-created from their repr), so what comes back wraps the first result."""
+    sb = sandbox()
+    key = 'carried:' + src
+    if key not in _state['proxies']:
+        from pedal.sandbox.result import is_sandbox_result
+        p = sb.call('ident', proxy_of(src))
+        if not is_sandbox_result(p) or sb.exception is not None:
+            raise RuntimeError('cannot carry proxy for %s: %r' % (src, sb.exception))
+        _state['proxies'][key] = p
+    return _state['proxies'][key]
 
 
 def unwrap(x):
@@ -220,9 +243,9 @@ HEAVY = ('mul', 'pow', 'lshift', 'pow3', 'range', 'str_mul_r', 'matmul', 'format
 def _huge(v, depth=0):
     if isinstance(v, bool):
         return False
-    if isinstance(v, int):
+    if type(v) is int:
         return abs(v) > 10000
-    if isinstance(v, float):
+    if type(v) is float:
         return v == v and abs(v) > 10000
     if isinstance(v, (list, tuple, set, frozenset)) and depth < 5:
         return any(_huge(i, depth + 1) for i in v)
@@ -242,6 +265,9 @@ def judge(case):
         # 'text' % proxy is decided inside str.__mod__ (C code inspects the right operand for the mapping protocol); like a
         # bare proxy needle in a real container this cannot be intercepted by any proxy object
         return Result([], False, ['skipped-c-level-percent-format'])
+    if (op == 'isinstance_own' and a_src == 'Masked()') or (op == 'isinstance_other' and a_src == 'Masked()' and b_src == 'Masked()'):
+        # isinstance(x, type(x)) succeeds through the type() shortcut, which no proxy can imitate once __class__ names another class
+        return Result([], False, ['skipped-type-shortcut'])
     if op in BINARY:
         fn, arity = BINARY[op], 2
     elif op in CONTAINER:
@@ -251,7 +277,7 @@ def judge(case):
     ra = real_of(a_src)
     rb = real_of(b_src) if arity == 2 else None
     real = run_op(fn, (ra, rb)[:arity])
-    pa = proxy_of(a_src) if place in ('left', 'both') else real_of(a_src)
+    pa = carried_proxy_of(a_src) if place == 'carried' else proxy_of(a_src) if place in ('left', 'both') else real_of(a_src)
     pb = None
     if arity == 2:
         pb = proxy_of(b_src) if place in ('right', 'both') else real_of(b_src)
@@ -318,6 +344,13 @@ def table(tier):
     for op in UNARY:
         for a in VALUES:
             yield {'op': op, 'a': a, 'place': 'left'}
+            yield {'op': op, 'a': a, 'place': 'carried'}
+    for op in ('add', 'mul', 'eq', 'lt', 'and', 'or'):
+        for a, b in itertools.product(VALUES, VALUES):
+            yield {'op': op, 'a': a, 'b': b, 'place': 'carried'}
+    for op in ('contains', 'getitem', 'isinstance_other'):
+        for a, b in itertools.product(VALUES, VALUES):
+            yield {'op': op, 'a': a, 'b': b, 'place': 'carried'}
 
 
 ENUMS = {'table': table}
